@@ -90,6 +90,10 @@ FatalForWaiter(x) == IF x.fatal = "none" THEN "APIConnectionError"
 WrapClass(x, local) == IF local \in API THEN local
                        ELSE IF x.fatal \in API THEN x.fatal ELSE "ANY"
 
+\* a connect phase whose task the CALLER cancelled: the cancellation is reported as a library error
+\* (the connection's own fatal cause if it has one) and the connection is cleaned up
+CancelClass(x) == IF x.fatal \in API THEN x.fatal ELSE "APIConnectionCancelledError"
+
 Done(x, op, out) == [x EXCEPT !.dn = Append(@, <<op, out, <<>> >>)]
 DoneR(x, op, out, res) == [x EXCEPT !.dn = Append(@, <<op, out, res>>)]
 
@@ -216,7 +220,8 @@ EnvTcp(x0, res) ==
 \* the start task resumes
 StartStep(x0) ==
   LET x == Begin(x0) IN
-  IF x.cs = "closed" THEN FailStart(x, "interrupted")      \* a close that took effect is never undone
+  IF x.st.wake = "Cancelled" THEN FailStart(x, CancelClass(x))
+  ELSE IF x.cs = "closed" THEN FailStart(x, "interrupted")      \* a close that took effect is never undone
   ELSE IF x.st.pc = "resolve" THEN
      IF Due(x, "res") THEN FailStart(x, "ResolveAPIError")
      ELSE IF x.st.wake = "ok"
@@ -247,11 +252,11 @@ ConnMade(x0) ==
   \* transport the send fails and asyncio force-closes the transport
   IF x.cfg.noise /\ x.sock # "open"
   THEN [x EXCEPT !.cm = FALSE, !.tr = "closed", !.lost = "reset",
-                 !.fi.wake = IF x.fi.pc = "create" THEN "ok" ELSE @]
+                 !.fi.wake = IF x.fi.pc = "create" /\ @ # "Cancelled" THEN "ok" ELSE @]
   ELSE
   [x EXCEPT !.cm = FALSE,
             !.fh = IF @ = "made" /\ ~x.cfg.noise THEN "ready" ELSE @,
-            !.fi.wake = IF x.fi.pc = "create" THEN "ok" ELSE @]
+            !.fi.wake = IF x.fi.pc = "create" /\ @ # "Cancelled" THEN "ok" ELSE @]
 
 \* the part of the finish phase that runs once the helper is ready
 HsDonePart(x) ==
@@ -284,12 +289,14 @@ FinishStepAlt(x0) ==
   LET x == Begin(x0) c == x.calls["hl"] IN
   FailFinish(x, HelloVerdict(x, c.resp))
 FinishStepAltEnabled(x) ==
-  /\ x.cs = "closed" /\ x.fi.pc = "hello" /\ x.calls["hl"].wake = "ok"
+  /\ x.cs = "closed" /\ x.fi.pc = "hello" /\ x.calls["hl"].wake = "ok" /\ x.fi.wake # "Cancelled"
   /\ HelloVerdict(x, x.calls["hl"].resp) \notin {"ok", "ANY"}
 
+FinishCancelled(x) == x.fi.wake = "Cancelled" \/ (x.fi.pc = "hello" /\ x.calls["hl"].wake = "Cancelled")
 FinishStep(x0) ==
   LET x == Begin(x0) IN
-  IF FinishStepAltEnabled(x) THEN FinishStepAlt(x0)
+  IF FinishCancelled(x) THEN FailFinish(x, CancelClass(x))
+  ELSE IF FinishStepAltEnabled(x) THEN FinishStepAlt(x0)
   \* the hello call had already timed out when the connection closed: the caller gets the timeout
   ELSE IF x.cs = "closed" /\ x.fi.pc = "hello" /\ x.calls["hl"].wake = "TimeoutAPIError" THEN FailFinish(x, "TimeoutAPIError")
   ELSE IF x.cs = "closed" THEN FailFinish(x, "interrupted")
@@ -298,8 +305,8 @@ FinishStep(x0) ==
      LET x1 == AddTimer([x EXCEPT !.fhset = TRUE, !.fi.wake = "none", !.fi.pc = "ready"], "hs", x.now + THandshake)
      IN IF x1.fh = "ready" THEN HsDonePart(x1) ELSE x1
   ELSE IF x.fi.pc = "ready" THEN
-     IF x.fh = "ready" THEN HsDonePart(x)
-     ELSE IF Due(x, "hs") THEN FailFinish(x, "TimeoutAPIError")
+     IF x.fi.wake = "TimeoutAPIError" THEN FailFinish(x, "TimeoutAPIError")      \* the handshake timer had fired
+     ELSE IF x.fh = "ready" THEN HsDonePart(x)
      ELSE FailFinish(x, x.fi.wake)
   ELSE \* hello
      LET c == x.calls["hl"] IN
@@ -313,18 +320,28 @@ FinishStep(x0) ==
      ELSE FailFinish(x, c.wake)
 FinishStepEnabled(x) ==
   /\ x.fi.pc \in {"create", "ready", "hello"}
-  /\ \/ x.cs = "closed"
+  /\ \/ x.cs = "closed" \/ x.fi.wake = "Cancelled"
      \/ (x.fi.pc = "create" /\ x.fi.wake = "ok")
-     \/ (x.fi.pc = "ready" /\ (x.fh = "ready" \/ Due(x, "hs") \/ x.fi.wake # "none"))
+     \/ (x.fi.pc = "ready" /\ (x.fh = "ready" \/ x.fi.wake # "none"))
      \/ (x.fi.pc = "hello" /\ x.calls["hl"].st = "woken")
+
+\* the 30 s handshake timer fires (its own callback): fails the readiness wait unless it is over
+HsTimerFire(x0) ==
+  LET x == Begin(x0) IN
+  DelTimer([x EXCEPT !.fi.wake = IF x.fi.pc = "ready" /\ x.fh # "ready" /\ @ = "none" THEN "TimeoutAPIError" ELSE @], "hs")
+HsTimerFireEnabled(x) == Due(x, "hs")
 
 \* the device completes / fails the Noise handshake (frame-helper level is NoiseHelper.tla)
 EnvHandshake(x0, res) ==    \* res: "ok" | error class reported by the helper
   LET x == Begin(x0) IN
   IF x.fh # "made" \/ x.cm THEN x
-  ELSE IF res = "ok" THEN [x EXCEPT !.fh = "ready"]
+  ELSE IF res = "ok" THEN
+       \* readiness is signalled on a wait that has already ended (timed out / cancelled by the caller):
+       \* the helper's set_result raises inside data_received and asyncio drops the transport
+       IF x.fi.pc = "ready" /\ x.fi.wake # "none" THEN [x EXCEPT !.fh = "ready", !.tr = "closed", !.lost = "reset"]
+       ELSE [x EXCEPT !.fh = "ready"]
   ELSE \* _handle_error_and_close: ready future fails, fatal error reported, transport closed
-       LET y == Fatal([x EXCEPT !.fi.wake = IF x.fi.pc = "ready" THEN res ELSE @], res)
+       LET y == Fatal([x EXCEPT !.fi.wake = IF x.fi.pc = "ready" /\ @ # "Cancelled" THEN res ELSE @], res)
        IN [y EXCEPT !.tr = IF @ = "open" THEN "closed" ELSE @, !.fh = "closed"]
 
 \* ------------------------------------------------------------ device I/O
@@ -342,13 +359,13 @@ EnvChunk(x0, ms) ==
 EnvJunk(x0, cls) ==
   LET x == Begin(x0) IN
   IF x.tr # "open" \/ x.cm THEN x
-  ELSE LET y == Fatal([x EXCEPT !.fi.wake = IF x.fi.pc = "ready" /\ x.fh = "made" THEN cls ELSE @], cls)
+  ELSE LET y == Fatal([x EXCEPT !.fi.wake = IF x.fi.pc = "ready" /\ x.fh = "made" /\ @ # "Cancelled" THEN cls ELSE @], cls)
        IN [y EXCEPT !.tr = "closed", !.fh = "closed"]
 
 EnvEof(x0) ==
   LET x == Begin(x0) IN
   IF x.tr # "open" \/ x.cm THEN x
-  ELSE LET y == Fatal([x EXCEPT !.fi.wake = IF x.fi.pc = "ready" /\ x.fh = "made" THEN "SocketClosedAPIError" ELSE @],
+  ELSE LET y == Fatal([x EXCEPT !.fi.wake = IF x.fi.pc = "ready" /\ x.fh = "made" /\ @ # "Cancelled" THEN "SocketClosedAPIError" ELSE @],
                       "SocketClosedAPIError")
        IN [y EXCEPT !.tr = "closed"]        \* eof_received returns False: transport closes
 
@@ -361,7 +378,7 @@ ConnLost(x0) ==
   LET x == Begin(x0)
       cls == IF x.cfg.noise /\ x.fh = "made" THEN "HandshakeAPIError" ELSE "RAW"
       y == [x EXCEPT !.lost = "none",
-                     !.fi.wake = IF x.fi.pc = "ready" /\ x.fh = "made" THEN cls ELSE @]
+                     !.fi.wake = IF x.fi.pc = "ready" /\ x.fh = "made" /\ @ # "Cancelled" THEN cls ELSE @]
   IN Fatal(y, cls)
 
 \* --------------------------------------------------------------- calls
@@ -402,6 +419,18 @@ CancelCall(x0, id) ==
 \* fire-and-forget send of one message (commands)
 UserSend(x0, n) == Send(Begin(x0), <<n>>).x
 
+\* the caller cancels the task of one of its own pending operations; the task sees it when it resumes
+UserCancel(x0, op) ==
+  LET x == Begin(x0) IN
+  CASE op = "start" /\ x.st.pc \in {"resolve", "tcp"} -> [x EXCEPT !.st.wake = "Cancelled"]
+    [] op = "finish" /\ x.fi.pc \in {"create", "ready", "hello"} ->
+         [x EXCEPT !.fi.wake = "Cancelled",
+                   !.calls["hl"] = IF x.fi.pc = "hello" /\ @.st \in {"pending", "woken"} THEN [@ EXCEPT !.st = "woken", !.wake = "Cancelled"] ELSE @]
+    [] op = "disconnect" /\ x.di.pc \in {"waitfin", "resp"} ->
+         [x EXCEPT !.di.wake = "Cancelled",
+                   !.calls["dr"] = IF x.di.pc = "resp" /\ @.st \in {"pending", "woken"} THEN [@ EXCEPT !.st = "woken", !.wake = "Cancelled"] ELSE @]
+    [] OTHER -> x
+
 \* ----------------------------------------------------------- subscribe
 UserSub(x0, id, kind, script) == [Begin(x0) EXCEPT !.subs = @ \cup {[id |-> id, kind |-> kind, script |-> script]}]
 UserUnsub(x0, id) == [Begin(x0) EXCEPT !.subs = {u \in @ : u.id # id}]
@@ -438,7 +467,11 @@ UserDisconnect(x0) ==
 
 DiscStep(x0) ==
   LET x == Begin(x0) IN
-  IF x.di.pc = "waitfin" THEN
+  IF x.di.wake = "Cancelled" THEN
+     \* the caller cancelled disconnect(): it just ends; nothing is cleaned up, what it had done so far stays
+     Done([DelTimer(DelTimer([x EXCEPT !.calls["dr"] = NoCall], "call:dr"), "dwait") EXCEPT !.di = [pc |-> "done", wake |-> "none", out |-> "Cancelled"]],
+          "disconnect", "Cancelled")
+  ELSE IF x.di.pc = "waitfin" THEN
      IF ~FinishInProgress(x) \/ x.cs = "closed" THEN DiscContinue(DelTimer(x, "dwait"))
      ELSE \* 5 s passed: give up waiting, remember why
           DiscContinue([DelTimer(x, "dwait") EXCEPT !.fatal = IF @ = "none" THEN "TimeoutAPIError" ELSE @])
@@ -446,6 +479,7 @@ DiscStep(x0) ==
      LET y == DelTimer([x EXCEPT !.calls["dr"] = NoCall], "call:dr") IN
      Done([Cleanup(y) EXCEPT !.di = [pc |-> "done", wake |-> "none", out |-> "ok"]], "disconnect", "ok")
 DiscStepEnabled(x) ==
+  \/ (x.di.pc \in {"waitfin", "resp"} /\ x.di.wake = "Cancelled")
   \/ (x.di.pc = "waitfin" /\ (~FinishInProgress(x) \/ x.cs = "closed" \/ Due(x, "dwait")))
   \/ (x.di.pc = "resp" /\ x.calls["dr"].st = "woken")
 
@@ -509,6 +543,7 @@ Silent == [][s.cs = "closed" => (s'.w = <<>> /\ s'.d = <<>>)]_s
 Quiescent(x) == /\ ~StartStepEnabled(x) /\ ~FinishStepEnabled(x) /\ ~DiscStepEnabled(x)
                 /\ \A i \in UserCalls : ~CallStepEnabled(x, i)
                 /\ \A i \in CallIds : ~CallTimerFireEnabled(x, i)
+                /\ ~HsTimerFireEnabled(x)
                 /\ ~x.cm /\ (x.lost = "none" \/ x.cs = "closed")   \* connection_lost on a closed connection is a no-op
 ReleasedAtRest ==
   (s.cs = "closed" /\ Quiescent(s)) =>
